@@ -102,3 +102,9 @@ func (d *DNSFilter) VerifRunLoopUntilDrained() (rounds int) {
 		}
 	}
 }
+
+// VerifTryRefresh is tryRefreshFilters, the call the periodic refresh of
+// updatesLoop and POST /control/filtering/refresh make.
+func (d *DNSFilter) VerifTryRefresh(block, allow, force bool) (updated int, isNetErr, ok bool) {
+	return d.tryRefreshFilters(block, allow, force)
+}
